@@ -1186,7 +1186,7 @@ func parseLinkLabel(r *inlineByteReader) linkLabel {
 		}
 		chars++
 		c := r.current()
-		if chars >= maxChars || c == '[' || c == ']' {
+		if chars > maxChars || c == '[' || c == ']' {
 			return linkLabel{NullSpan(), NullSpan()}
 		}
 		if !isSpaceTabOrLineEnding(c) {
@@ -1196,7 +1196,7 @@ func parseLinkLabel(r *inlineByteReader) linkLabel {
 	result.inner.Start = r.pos
 
 	// Consume rest of the label text.
-	for ; chars < maxChars && r.current() != '[' && r.current() != ']'; chars++ {
+	for ; chars <= maxChars && r.current() != '[' && r.current() != ']'; chars++ {
 		if r.current() == '\\' {
 			result.inner.End = r.pos + 1
 			chars++
